@@ -132,7 +132,8 @@ theorem formatString_foam_three (s : Str) :
     · simp only [h1, h3, if_true, if_false]; simp
     · by_cases h4 : s.any isQuote = true
       · by_cases h5 : s.contains '"' = true <;> simp only [h1, h3, h4, h5, if_true, if_false] <;> simp
-      · by_cases h6 : s.any isComplexChar = true <;> simp only [h1, h3, h4, h6, if_true, if_false] <;> simp
+      · by_cases h6 : s.any isComplexChar = true <;> by_cases h7 : startsInclude s = true <;>
+          simp only [h1, h3, h4, h6, h7, if_true, if_false] <;> simp
 
 theorem apos_escapeDq : ∀ s : Str, '\'' ∉ s → '\'' ∉ escapeDq s
   | [], _ => by simp [escapeDq]
@@ -564,7 +565,8 @@ open DictIO.C01
 
 /-- on strings without `$` and `"` the Foam writer writes bare or in double quotes, nothing else -/
 theorem formatString_foam_cases {s : Str} (hd : s.contains '$' = false) (hq : s.contains '"' = false) :
-    (formatString .foam s = s ∧ s ≠ [] ∧ s.all (fun c => !isQuote c && !isComplexChar c) = true) ∨
+    (formatString .foam s = s ∧ s ≠ [] ∧ s.all (fun c => !isQuote c && !isComplexChar c) = true ∧
+      startsInclude s = false) ∨
     formatString .foam s = dq s := by
   rw [C04.formatString_def]
   by_cases hne : s = []
@@ -574,10 +576,14 @@ theorem formatString_foam_cases {s : Str} (hd : s.contains '$' = false) (hq : s.
     | true => right; simp only [hd, he, hq, Bool.false_eq_true, if_false, if_true]
     | false =>
       cases hc : s.any isComplexChar with
-      | true => right; simp only [hd, he, Bool.false_eq_true, if_false, if_true]
+      | true => right; simp only [hd, he, Bool.true_or, Bool.false_eq_true, if_false, if_true]
       | false =>
-        left
-        refine ⟨by simp only [hd, he, Bool.false_eq_true, if_false], hne, (C04.all_plain_iff s).mpr ⟨hqq, hc⟩⟩
+        cases hi : startsInclude s with
+        | true => right; simp only [hd, he, Bool.or_true, Bool.false_eq_true, if_false, if_true]
+        | false =>
+          left
+          refine ⟨by simp only [hd, he, Bool.or_self, Bool.false_eq_true, if_false], hne,
+            (C04.all_plain_iff s).mpr ⟨hqq, hc⟩, rfl⟩
 
 theorem writtenLit_str_bare_f {s : Str} (h : formatString .foam s = s) : writtenLit .foam (.str s) = .bare s := by
   simp [writtenLit, formatScalar, h]
@@ -615,7 +621,7 @@ theorem den_writtenLit_f {x : Scalar} (h : isDomScalar .foam x = true) : (writte
   | none => exact C04.C04_format_parse_none (Or.inr rfl)
   | str s =>
     obtain ⟨hn, hq⟩ := isDomStr_foam h
-    rcases formatString_foam_cases (domStr_no_dollar hn) hq with ⟨hf, _, hall⟩ | hf
+    rcases formatString_foam_cases (domStr_no_dollar hn) hq with ⟨hf, _, hall, _⟩ | hf
     · rw [writtenLit_str_bare_f hf]
       obtain ⟨hq, _⟩ := (C04.all_plain_iff s).mp hall
       have hq' : ∀ c ∈ s, isQuote c = false := fun c hc => by
@@ -643,14 +649,15 @@ theorem written_ok_f {x : Scalar} (h : isDomScalar .foam x = true) : (writtenLit
   | str s =>
     obtain ⟨hn, hdq⟩ := isDomStr_foam h
     obtain ⟨_, _, _, _, _, _, _, _, hlast⟩ := isDomStr_iff.mp hn
-    rcases formatString_foam_cases (domStr_no_dollar hn) hdq with ⟨hf, hne, hall⟩ | hf
+    rcases formatString_foam_cases (domStr_no_dollar hn) hdq with ⟨hf, hne, hall, hinc⟩ | hf
     · rw [writtenLit_str_bare_f hf]
       obtain ⟨hq, hcx⟩ := (C04.all_plain_iff s).mp hall
-      rcases hlast with h1 | h1 | h1 | h1
+      rcases hlast with h1 | h1 | h1 | h1 | h1
       · exact absurd (by simpa using h1) hne
       · rw [hq] at h1; cases h1
       · rw [hcx] at h1; cases h1
       · exact h1
+      · rw [hinc] at h1; cases h1
     · rw [writtenLit_str_dq_f hf (C04.dq_ne s)]
       exact domStr_quoted hn (by decide) hdq
 
@@ -667,7 +674,8 @@ theorem formatKey_eq_keyStr_f {k : Key} (h : isDomKey k = true) : formatKey .foa
     simp only [isDomKey, Bool.and_eq_true, Bool.not_eq_true'] at h
     obtain ⟨hw, _, _, _, _, hch, _⟩ := isSrcWord_iff.mp h.1.1
     simp only [formatKey, keyStr]
-    refine C04.formatString_of_bare ⟨?_, ?_, ?_⟩
+    have hhash := (isSrcWord_iff.mp h.1.1).2.2.2.2.2.2.2.2
+    refine C04.formatString_of_bare ⟨?_, ?_, ?_, startsInclude_of_head hhash⟩
     · intro hs; subst hs; simp [isWordTok] at hw
     · cases hc : s.contains '$' with
       | false => rfl
